@@ -779,7 +779,7 @@ spiftool_version_compare(spif_charptr_t v1, spif_charptr_t v2)
             D_CONF(("     -> Comparing as integers %d vs. %d\n", (int) ival1, (int) ival2));
 
             /* Compare the integers and return if not equal. */
-            c = SPIF_CMP_FROM_INT(ival1 - ival2);
+            c = (ival1 < ival2) ? SPIF_CMP_LESS : ((ival1 > ival2) ? SPIF_CMP_GREATER : SPIF_CMP_EQUAL);
             if (!SPIF_CMP_IS_EQUAL(c)) {
                 D_CONF(("     -> %d\n", (int) c));
                 return c;
